@@ -500,13 +500,22 @@ func evaluate(j *job, a *inproc, bin string, scratch string) *result {
 		oldFile := filepath.Join(bp.oldDir, bp.p.File(g).FileName())
 		newFile := filepath.Join(res.newDir, np.File(g).FileName())
 		// expectation for the pair (g and its includes, old vs new)
+		// (a file that an edit of the script detached from g - its include was
+		// dropped - is not part of the new program of g any more: a breaking
+		// edit in it is judged only where it is still reachable)
 		expect := "pass"
 		if len(affected[g]) > 0 {
 			expect = "fail"
 		} else {
+			newClosure := closure(np, g)
 			for h := range closure(bp.p, g) {
-				if breakingIn[h] {
+				if !breakingIn[h] {
+					continue
+				}
+				if newClosure[h] {
 					expect = "fail(in-included-file)"
+				} else if expect == "pass" {
+					expect = "either(include-detached)"
 				}
 			}
 		}
@@ -554,6 +563,11 @@ func evaluate(j *job, a *inproc, bin string, scratch string) *result {
 					}
 				}
 				sig = "C18:missed-breaking:in-included-file:" + in[0].Op
+				for _, e := range res.applied {
+					if e.Op == "drop-include" {
+						sig = "C18:missed-breaking:in-shared-include-dropped-by-one-parent:" + in[0].Op
+					}
+				}
 				what = fmt.Sprintf("%s passed %s although a file it includes contains the catalogued breaking edit(s) %s (the audit compares the two named files only)", src, fo.File, opList(in, true))
 			case expect == "pass" && v.Fail:
 				if len(res.applied) == 0 {
@@ -602,7 +616,7 @@ func evaluate(j *job, a *inproc, bin string, scratch string) *result {
 
 func runC18() int {
 	run := ev.New("C18", ev.ArgTier(), "exploration")
-	run.Rule("N random base programs (idl.Generate, CoreConfig, 1-3 files) + R more on which only the operators with few sites per program are enumerated + T more generated with TransitiveTypedefs and a planted chain root -> zqmid -> zqdeep (root does not include zqdeep) on which every typedef operator is enumerated; new = old + an edit script over the documented catalogue " +
+	run.Rule("N random base programs (idl.Generate, CoreConfig, 1-3 files) + R more on which only the operators with few sites per program are enumerated + T more generated with TransitiveTypedefs and planted structures - a chain root -> zqmid -> zqdeep (root does not include zqdeep), three same-named services (local / zqcore / zqlegacy) with a child each, a diamond (zqfirst, zqsecond, zqthird all include zqshared) - on which every typedef operator, every extends change between same-named parents, every include drop and the whole catalogue inside zqshared are enumerated, plus pairs (one parent drops the shared include + a breaking edit inside it); new = old + an edit script over the documented catalogue " +
 		"(compiler/parser/audit.go requirement comments + property text): (a) EVERY single operator at EVERY applicable site of every base program " +
 		"(exhaustive per program: every field / argument / exception / method / operation / enum variant / declaration, every node of every type " +
 		"expression, every typedef), (b) pairs of one breaking + one compatible edit (random sample, same-declaration neighbours, and replacements = a removal plus an addition to the same list; both orders), (c) random scripts of 2-6 edits " +
@@ -612,9 +626,9 @@ func runC18() int {
 	run.Assume("verif/idl renders the model faithfully (C10 anchors the parser against it); the label of each operator is the one documented in audit.go / the property text (catalogue in the evidence)")
 	run.Assume("two edits of one script never share a site (conflict keys) and added ids / enum numbers / names are fresh, so no edit cancels another")
 
-	nProg, nRare, nTrans, nPairB, nPairC, nNeighbours, nReplace, nScripts, nRestyle, binEvery := 5, 30, 10, 8, 8, 40, 60, 40, 4, 3
+	nProg, nRare, nTrans, nDropPairs, nPairB, nPairC, nNeighbours, nReplace, nScripts, nRestyle, binEvery := 5, 30, 10, 16, 8, 8, 40, 60, 40, 4, 3
 	if run.Thorough() {
-		nProg, nRare, nTrans, nPairB, nPairC, nNeighbours, nReplace, nScripts, nRestyle, binEvery = 200, 300, 150, 6, 6, 30, 40, 24, 3, 8
+		nProg, nRare, nTrans, nDropPairs, nPairB, nPairC, nNeighbours, nReplace, nScripts, nRestyle, binEvery = 200, 300, 150, 12, 6, 6, 30, 40, 24, 3, 8
 	}
 	bin, err := emit.FrugalBin()
 	if err != nil {
@@ -673,6 +687,34 @@ func runC18() int {
 		add := func(kind string, edits []int, st idl.Style) {
 			jobs = append(jobs, &job{base: bp, kind: kind, edits: edits, style: st})
 		}
+		// an include dropped by one file + a breaking edit inside that include,
+		// which other files still include (diamonds): the shared file must
+		// still be compared
+		dropPairs := func() {
+			var dp [][2]int
+			for d, de := range bp.edits {
+				if de.Op != "drop-include" || !strings.HasSuffix(de.SiteKind, "shared-with-other-files") {
+					continue
+				}
+				target := strings.TrimPrefix(de.Keys[0], de.File+"/inc:")
+				for b, be := range bp.edits {
+					if be.Breaking && be.File == target {
+						dp = append(dp, [2]int{d, b})
+					}
+				}
+			}
+			rng.Shuffle(len(dp), func(a, b int) { dp[a], dp[b] = dp[b], dp[a] })
+			if len(dp) > nDropPairs {
+				dp = dp[:nDropPairs]
+			}
+			for k, x := range dp {
+				if k%2 == 0 {
+					add("include-dropped+breaking", []int{x[0], x[1]}, bp.style)
+				} else {
+					add("include-dropped+breaking", []int{x[1], x[0]}, bp.style)
+				}
+			}
+		}
 		if i >= nProg+nRare {
 			add("identical", nil, bp.style)
 			for ix, e := range bp.edits {
@@ -681,6 +723,7 @@ func runC18() int {
 					opSites[e.Op]++
 				}
 			}
+			dropPairs()
 			return bp, jobs, opSites
 		}
 		if i >= nProg {
@@ -776,6 +819,7 @@ func runC18() int {
 				add("replace-pair", []int{bc[1], bc[0]}, bp.style)
 			}
 		}
+		dropPairs()
 		// random scripts of 2-6 edits: compatible-only and mixed
 		for k := 0; k < nScripts; k++ {
 			pool, kind := co, "compat-script"
